@@ -107,3 +107,52 @@ def agg_rows(prog, A, fid, adts):
             if s["k"] == "assign" and s["rv"]["r"] == "agg" and s["rv"].get("kind") == "adt" and s["rv"]["adt"] in adts:
                 rows.append(["build %s::%s" % (s["rv"]["adt"].split("::")[-1], s["rv"]["v"]), sorted(guards.guard_set(b, S, bi))])
     return rows
+
+
+def cursor_rows(prog, A, fid):
+    """rows ["<var> += c" / "<var> -= c", guards] for every step of an integer scan variable in function fid"""
+    import json as _json
+    from . import c03, panics, zones
+    b = prog.bodies.get(fid)
+    if b is None:
+        return []
+    S = A.summary(fid)
+    fz = panics.interproc(prog).zones_of(fid)
+    succ = b.succ()
+    rows = []
+    for bi, blk in enumerate(b.blocks):
+        if blk["cleanup"]:
+            continue
+        tmp = {}
+        for s in blk["s"]:
+            if s["k"] == "assign" and s["rv"]["r"] == "bin" and s["rv"]["op"] in ("AddWithOverflow", "SubWithOverflow") and "k" in s["rv"]["b"] and not s["p"]["p"]:
+                c = mir.const_int(s["rv"]["b"])
+                pl = mir.op_place(s["rv"]["a"])
+                if c is not None and pl is not None:
+                    tmp[s["p"]["l"]] = (_json.dumps(pl, sort_keys=True), "+=" if s["rv"]["op"].startswith("Add") else "-=", c, pl)
+        for sb in succ[bi]:
+            for s in b.blocks[sb]["s"]:
+                if s["k"] == "assign" and s["rv"]["r"] == "use":
+                    src = mir.op_place(s["rv"]["a"])
+                    if src is not None and src["l"] in tmp and _json.dumps(s["p"], sort_keys=True) == tmp[src["l"]][0]:
+                        _, op, c, pl = tmp[src["l"]]
+                        rows.append(["%s %s %d" % (var_desc(b, fz, pl), op, c), sorted(guards.guard_set(b, S, sb))])
+    return rows
+
+
+def var_desc(b, fz, pl):
+    l = pl["l"]
+    if 1 <= l <= b.argc:
+        return "arg%d" % l + ("*" if pl["p"] else "")
+    # a local scan variable: described by its type and constant initialisers
+    inits = set()
+    for bi, blk in enumerate(b.blocks):
+        for s in blk["s"]:
+            if s["k"] == "assign" and not s["p"]["p"] and s["p"]["l"] == l and s["rv"]["r"] == "use":
+                if "k" in s["rv"]["a"]:
+                    inits.add(s["rv"]["a"]["k"])
+                else:
+                    p2 = mir.op_place(s["rv"]["a"])
+                    if p2 is not None and 1 <= p2["l"] <= b.argc:
+                        inits.add("arg%d" % p2["l"])
+    return "local:%s{%s}" % (b.locals[l]["ty"], ",".join(sorted(inits)))
